@@ -103,7 +103,10 @@ Theorem deliver_step i T Dr B e : Sim ep lam vals J K i T Dr B -> AbftClosedInv.
   parents_known T e -> nlookup (eid (fe e)) T = None -> (ecr (fe e) < nv)%nat -> ev_wf T e ->
   r_frame_ok vals T (mk_node nv T e) = true -> few_forkers vals (mk_node nv T e :: T) ->
   exists bl i' ldf ep', step cap pol sample i (OpP (ae e)) = (ObsP None bl ldf ep', i', false) /\
-    delivered_graph (mk_node nv T e :: T) (marked (l_conf (i_st i))) bl.
+    delivered_graph (mk_node nv T e :: T) (marked (l_conf (i_st i))) bl /\
+    (existsb is_sealed bl = false ->
+       forall x, marked (l_conf (i_st i')) x <-> marked (l_conf (i_st i)) x \/ exists b, In b bl /\ In x (b_delivered b)) /\
+    (forall b, In b bl -> b_seal b = sf (b_frame b)).
 Proof.
   intros HS [Kc Km] Fe Je PK NL CR EW FO Hff.
   destruct (process_step_gen cap ep lam vals Hvals J K pol sf (fun _ _ _ _ => eq_refl) i T Dr B e HS Fe Je PK NL CR EW FO Hff)
@@ -119,6 +122,7 @@ Proof.
   destruct (process cap (policy_fn pol) es1 (i_st i) (ae e)) as [[r bl0] st'] eqn:PE.
   destruct r as [u|x]; [|discriminate].
   assert (bl0 = bl) by (inversion EP; reflexivity). subst bl0.
+  assert (Ec' : l_conf (i_st i') = l_conf st') by (inversion EP; reflexivity).
   (* the event store holds the reference's events *)
   assert (Hes1 : forall e0, In e0 (e :: Dr) -> get_event es1 (eid (fe e0)) = Some (ae e0)).
   { intros e0 [<-|He0]; unfold es1, get_event; cbn [to_aevent a_id].
@@ -133,7 +137,8 @@ Proof.
     - unfold es1, get_event in Gw. cbn [to_aevent a_id] in Gw. rewrite alookup_aput_neq in Gw by (intros E0; apply Nw; exact E0).
       exact (Kc w0 ev p Mw Gw Pp). }
   assert (HI : elinv (i_st i)) by (unfold elinv; rewrite (ei_frame _ _ _ _ _ I0); reflexivity).
-  destruct (process_delivers cap (policy_fn pol) es1 (i_st i) (ae e) _ _ _ HI Kc1 PE) as [D _].
+  destruct (process_delivers cap (policy_fn pol) es1 (i_st i) (ae e) _ _ _ HI Kc1 PE) as [D P].
+  split; [|split; [intros NS; rewrite Ec'; apply (P NS) | exact SL]].
   apply (delivered_ok_graph ep lam vals _ _ es1 W' Hes1 bl _); [|exact D].
   intros b Hb.
   assert (Hin : In (b_frame b, b_atropos b) (map fst (B ++ map blk_obs bl))).
